@@ -9,6 +9,47 @@ def geoJ : Option (Option Bool) → Except String Json
   | some r => .ok (optRaiseJ boolJ r)
   | none => .error "geometry without points"
 
+/-- a threshold as a call passes it: JSON `null` = Python `None` -/
+def getOptRat (j : Json) : Except String (Option Rat) :=
+  match j with
+  | .null => .ok none
+  | v => do return some (← getRat v)
+
+def getKw {α} (f : Json → Except String α) (j : Json) : Except String (String × α) := do
+  match ← getArr j with
+  | [k, v] => return (← k.getStr?, ← f v)
+  | _ => .error "keyword: expected [name, value]"
+
+/-- the optional arguments of a call, as written: `{"pos": [v, …], "kw": [[name, v], …]}` -/
+def getCall {α} (f : Json → Except String α) (c : Json) : Except String (List α × List (String × α)) := do
+  let pos ← (← fldArr c "pos").mapM f
+  let kw ← (← fldArr c "kw").mapM (getKw f)
+  return (pos, kw)
+
+/-- outermost `none`: the call itself is a `TypeError` -/
+def callJ : Option (Option (Option Bool)) → Except String Json
+  | some r => geoJ r
+  | none => .ok (raiseJ .type)
+
+def getStep (j : Json) : Except String Step := do
+  match ← fldStr j "do" with
+  | "set" | "derive" => return .setGeom (← fldNat j "slot") (← getGeom (← fld j "g"))
+  | "clip" => return .setClip (← fldNat j "slot") (← fldRat j "start") (← fldRat j "end")
+  | "touch" => return .touch (← fldNat j "slot")
+  | "intervals" =>
+    let (s1, e1) ← getPair (← fld j "i1")
+    let (s2, e2) ← getPair (← fld j "i2")
+    return .intervals s1 e1 s2 e2 (← fldOptRat j "abs") (← fldOptRat j "rel")
+  | "temporal" => return .temporal (← fldNat j "a") (← fldNat j "b") (← fldOptRat j "abs") (← fldOptRat j "rel")
+  | "frequency" => return .frequency (← fldNat j "a") (← fldNat j "b") (← fldOptRat j "abs") (← fldOptRat j "rel")
+  | "in_clip" => return .inClip (← fldNat j "a") (← fldNat j "clip") (← fldOptRat j "min")
+  | d => .error s!"C12 session: unknown step {d}"
+
+/-- the answers of a history: `null` for the steps that are not calls -/
+def answerJ : Option (Option Bool) → Json
+  | some r => optRaiseJ boolJ r
+  | none => Json.null
+
 /-- the implementation's observed outcome: `{"val": bool}` | `{"raise": …}` -/
 def getOut (a : Json) : Except String (Option Bool) := do
   let o ← fld a "out"
@@ -37,6 +78,10 @@ def handle (op : String) (a : Json) : Except String Json := do
   | "intervals_overlap" | "intervals_overlap64" =>
     let (s1, e1) ← getPair (← fld a "i1")
     let (s2, e2) ← getPair (← fld a "i2")
+    if let some c := fldOpt a "call" then
+      -- the arguments as the call writes them (positional / keyword / explicit None), exact model only
+      let (pos, kw) ← getCall getOptRat c
+      return ← callJ ((intervalsOverlapCall s1 e1 s2 e2 pos kw).map some)
     let abs ← fldOptRat a "abs"
     let rel ← fldOptRat a "rel"
     if op == "intervals_overlap" then return optRaiseJ boolJ (intervalsOverlap s1 e1 s2 e2 abs rel)
@@ -44,6 +89,10 @@ def handle (op : String) (a : Json) : Except String Json := do
   | "temporal" | "frequency" | "temporal64" | "frequency64" =>
     let g1 ← getGeom (← fld a "g1")
     let g2 ← getGeom (← fld a "g2")
+    if let some c := fldOpt a "call" then
+      let (pos, kw) ← getCall getOptRat c
+      return ← callJ (if op == "temporal" then haveTemporalOverlapCall g1 g2 pos kw
+                      else haveFrequencyOverlapCall g1 g2 pos kw)
     let abs ← fldOptRat a "abs"
     let rel ← fldOptRat a "rel"
     match op with
@@ -53,6 +102,9 @@ def handle (op : String) (a : Json) : Except String Json := do
     | _ => geoJ (haveFrequencyOverlapR rnd g1 g2 abs rel)
   | "is_in_clip" | "is_in_clip64" =>
     let g ← getGeom (← fld a "g")
+    if let some c := fldOpt a "call" then
+      let (pos, kw) ← getCall getRat c
+      return ← callJ (isInClipCall g (← fldRat a "start") (← fldRat a "end") pos kw)
     let m := (← fldOptRat a "min").getD defaultMinimumOverlap
     if op == "is_in_clip" then geoJ (isInClipGeom g (← fldRat a "start") (← fldRat a "end") m)
     else geoJ (isInClipGeomR rnd g (← fldRat a "start") (← fldRat a "end") m)
@@ -64,6 +116,10 @@ def handle (op : String) (a : Json) : Except String Json := do
     let b ← geomBounds (← getGeom (← fld a "g"))
     let m := (← fldOptRat a "min").getD defaultMinimumOverlap
     return boolJ (clipFloatOk (← fldRat a "u") b (← fldRat a "start") (← fldRat a "end") m (← getOut a))
+  -- a history in one process: the answers of all steps (see `C12_session_*`)
+  | "session" =>
+    let steps ← (← fldArr a "steps").mapM getStep
+    return valJ (arrJ ((runSession Store.empty steps).map answerJ))
   | "bounds" =>
     return boundsJ (← geomBounds (← getGeom (← fld a "g")))
   | "rnd64" =>
